@@ -7,6 +7,7 @@ import (
 	"github.com/gorilla/websocket"
 	"github.com/rs/zerolog/log"
 	"net"
+	neturl "net/url"
 	"os"
 	"sync/atomic"
 )
@@ -32,7 +33,7 @@ func NewLogClient(address, socketPath string) *LogClient {
 
 func (l *LogClient) ReadProcessLogs(name string, offset int, follow bool, fn func(api.LogMessage)) (done chan struct{}, err error) {
 
-	url := fmt.Sprintf("ws://%s/process/logs/ws?name=%s&offset=%d&follow=%v", l.address, name, offset, follow)
+	url := fmt.Sprintf("ws://%s/process/logs/ws?name=%s&offset=%d&follow=%v", l.address, neturl.QueryEscape(name), offset, follow)
 	log.Info().Msgf("Connecting to %s", url)
 
 	dialer := websocket.DefaultDialer
